@@ -187,6 +187,19 @@ T = [
      "        cli.retry_tag_filter = cli.retry_tag_filter.or(retry_filter);", "        cli.retry_tag_filter = retry_filter.or(cli.retry_tag_filter);"),
     ("c18_delay_swapped_with_count_component", "C18/R2", B,
      "                after: options.and_then(|(_, a)| a).or(cli.retry_after),", "                after: cli.retry_after.or(options.and_then(|(_, a)| a)),"),
+    # ---- C16
+    ("c16_docstrings_not_substituted", "C16/R1", "src/feature.rs",
+     "                for value in iter::once(&mut s.value)\n                    .chain(s.docstring.iter_mut())\n                    .chain(s.table.iter_mut().flat_map(|t| {", "                for value in iter::once(&mut s.value)\n                    .chain(s.table.iter_mut().flat_map(|t| {"),
+    ("c16_name_not_substituted", "C16/R1", "src/feature.rs",
+     "            expanded.name =\n                replace_templates(&expanded.name, expanded.position)?;\n", "            drop(replace_templates(&expanded.name, expanded.position)?);\n"),
+    ("c16_table_tags_replace_outline_tags", "C16/R4", "src/feature.rs",
+     "            expanded.tags.extend(tags.cloned());", "            expanded.tags = tags.cloned().collect();"),
+    ("c16_rows_reversed", "C16/R4", "src/feature.rs",
+     "            vals.iter()\n                .map(|v| header.iter().zip(v))", "            vals.iter()\n                .rev()\n                .map(|v| header.iter().zip(v))"),
+    ("c16_unknown_placeholder_ignored", "C16/R3", "src/feature.rs",
+     "                err.map_or_else(|| Ok(replaced), Err)", "                drop(err);\n                Ok(replaced)"),
+    ("c16_position_without_row_offset", "C16/R4", "src/feature.rs",
+     "            expanded.position.line += id + 2;", "            expanded.position.line += 2;\n            let _ = id;"),
     # ---- C10
     ("c10_world_new_outside_catch", "C10/R1", B,
      "                match AssertUnwindSafe(async { W::new().await })\n                    .catch_unwind()\n                    .then_yield()\n                    .await\n                {\n                    Ok(Ok(w)) => w,",
